@@ -111,6 +111,11 @@ def check_direct(case) -> Result:
         if Tl is None:
             res.classes += ('no-load-torque',)
             return res
+        if _cand_near_zero(cand, r['mult'], mdl):
+            # the candidate is a difference of two terms that cancel to rounding: whether it is EXACTLY zero (the
+            # library then falls back on pwm_min or raises) is too close to call
+            res.classes += ('ramp-candidate-near-zero',)
+            return res
         if cand != 0:
             dmin = cand
         elif r.get('pwm_min') is None:
@@ -197,7 +202,7 @@ def _proposals(case, mdl, tr, k):
         elif kind == 'ramp':
             cand = r['mult'] * RU.pwm_min_candidate(Tl[0], mdl.Tmax, mdl.i0, mdl.imax, mdl.E)
             dmin = cand if cand != 0 else r.get('pwm_min')
-            if abs(theta - tgt) <= 1e-9 * abs(tgt):
+            if abs(theta - tgt) <= 1e-9 * abs(tgt) or _cand_near_zero(cand, r['mult'], mdl):
                 out.append('amb')
             else:
                 out.append(RU.ramp(theta, tgt, dmin)[1])
@@ -290,6 +295,12 @@ def s_base(draw, max_len=5, locking=False):
     case['init'] = G.s_init(draw, mdl, at_rest=True)
     G.add_variants(draw, case)
     return case, mdl
+
+
+def _cand_near_zero(cand, mult, mdl):
+    """the minimum duty cycle candidate mult * (a + i0/imax) with a < 0 cancelling i0/imax to within 1e-9"""
+    b = abs(mult) * mdl.i0 / mdl.imax
+    return cand != 0 and b > 0 and abs(cand) <= 1e-9 * b or (cand == 0 and b > 0)
 
 
 def _exactq(kind, v, unit):
